@@ -17,6 +17,7 @@ import (
 
 	"gitlab.com/aquachain/aquachain/common"
 	"gitlab.com/aquachain/aquachain/common/log"
+	"gitlab.com/aquachain/aquachain/core"
 	"verif/internal/fw"
 	"verif/internal/mon/journaldb"
 )
@@ -74,6 +75,8 @@ func failSpecs(tier string, seed uint64) []failPlan {
 type FaultIn struct {
 	Spec     Spec        `json:"spec"`
 	Workload string      `json:"workload"` // file with the encoded workload ("" = generate from the spec)
+	Mode     string      `json:"mode"`     // "" write failure at event Index | "kill": SIGKILL self after write number Index, on LevelDB in Dir
+	Dir      string      `json:"dir"`
 	Index    int         `json:"index"`
 	Final    common.Hash `json:"final"` // head of the crash-free run
 }
@@ -162,6 +165,9 @@ func FaultMain(args []string) int {
 	} else {
 		wl = Build(in.Spec)
 	}
+	if in.Mode == "kill" {
+		return killMain(in, wl, outPath)
+	}
 	var jref *journaldb.DB
 	onFail := func(f *journaldb.Failure) {
 		evs := jref.Events()
@@ -191,7 +197,7 @@ func FaultMain(args []string) int {
 	}
 	doneCh := make(chan *Run, 1)
 	go func() {
-		doneCh <- wl.execute(&journaldb.FailSpec{Index: in.Index}, onFail, func(j *journaldb.DB) { jref = j })
+		doneCh <- wl.execute(&journaldb.FailSpec{Index: in.Index}, onFail, func(j *journaldb.DB) { jref = j }, nil)
 	}()
 	var run *Run
 	select {
@@ -246,12 +252,14 @@ func FaultMain(args []string) int {
 }
 
 // provenLockLeak inspects all goroutine stacks. It returns the stack of a
-// goroutine that is parked in sync.(*RWMutex).Lock called from a method of
-// trie.Database while no other goroutine is inside any method of trie.Database
-// (so the lock is held by no running code), or "".
+// goroutine that is parked in sync.(*RWMutex).Lock called from the trie package
+// (whose only lock is the node database's) while no other goroutine is inside
+// the trie package at all and the lock cannot be taken - so it is held by no
+// running code - or "".
 func provenLockLeak() string {
 	buf := make([]byte, 1<<20)
 	buf = buf[:runtime.Stack(buf, true)]
+	const triePkg = "gitlab.com/aquachain/aquachain/trie."
 	parked := ""
 	for _, g := range strings.Split(string(buf), "\n\n") {
 		lines := strings.Split(g, "\n")
@@ -264,22 +272,28 @@ func provenLockLeak() string {
 				fns = append(fns, ln)
 			}
 		}
-		inTrieDB, waits := false, false
+		inTrie, waits := false, false
 		for i, fn := range fns {
-			if strings.Contains(fn, "/trie.(*Database).") {
-				inTrieDB = true
+			if strings.HasPrefix(fn, triePkg) {
+				inTrie = true
 			}
-			if strings.HasPrefix(fn, "sync.(*RWMutex).Lock(") && i+1 < len(fns) && strings.Contains(fns[i+1], "/trie.(*Database).") {
+			if strings.HasPrefix(fn, "sync.(*RWMutex).Lock(") && i+1 < len(fns) && strings.HasPrefix(fns[i+1], triePkg) {
 				waits = true
 			}
 		}
-		isParked := strings.Contains(lines[0], "[sync.RWMutex.Lock") || strings.Contains(lines[0], "[semacquire")
+		isParked := strings.Contains(lines[0], "[sync.RWMutex.Lock")
 		switch {
 		case waits && isParked && parked == "":
 			parked = g
-		case inTrieDB:
-			return "" // someone is (or a second one waits) inside the trie database: no proof
+		case inTrie:
+			return "" // someone else is inside the trie package: no proof
 		}
+	}
+	if parked == "" {
+		return ""
+	}
+	if bc, _ := liveChain.Load().(*core.BlockChain); bc == nil || bc.VerifC04TrieDB().VerifLockFree() {
+		return ""
 	}
 	return parked
 }
@@ -330,7 +344,10 @@ func runFail(c *fw.Ctx, plan failPlan) {
 		run := wl.Execute(nil, nil)
 		for i, e := range run.StepErrs {
 			if e != "" {
-				c.Violate("crash_free_run_fails", "workload", stable(e), fmt.Sprintf("step %d: %s", i, e))
+				// not a crash-consistency verdict: without a clean reference run
+				// nothing is checked and the observation gates fail the run
+				c.Note("crash-free run of %s failed at step %d: %s", spec.Name, i, e)
+				c.Inconclusive("crash_free_run_error")
 				return
 			}
 		}
